@@ -127,7 +127,11 @@ func init() {
 			n, maxTx = 8, 3
 			seeds = []string{"twolevel", "freeruns", "overflow"}
 		}
-		scs := mk("c01-life", seeds, cfgsCrash(tier), n, 0, lifeAlphabet(1, lifeBodies, reopenCfgs(), maxTx), crashBoundary(0))
+		cs := cfgsCrash(tier)
+		for i := range cs {
+			cs[i].InitialMmapSize = 1 << 20 // reader and writer share a goroutine (see lifeScopes)
+		}
+		scs := mk("c01-life", seeds, cs, n, 0, lifeAlphabet(1, lifeBodies, reopenCfgsBig(), maxTx), crashBoundary(0))
 		for _, s := range scs {
 			s.Setup = crashSetup
 		}
